@@ -12,6 +12,7 @@ package main
 import (
 	"encoding/json"
 	"fmt"
+	"os"
 	"strconv"
 	"strings"
 
@@ -183,8 +184,9 @@ func genJSONHello(r *Rng, i int, tier string) string {
 		},
 		func() string { return "session_ticket|-" },
 		func() string { return "status_request_v2" },
-		func() string { return "cookie|" + hx(r.Bytes(8)) },                                   // not importable from raw
-		func() string { return fmt.Sprintf("generic|%d|%s", 60+r.Intn(200), hx(r.Bytes(3))) }, // unknown to ExtensionFromID
+		func() string { return Pick(r, []string{"generic|15|01", "generic|49|-", "generic|42|-"}) }, // heartbeat, post_handshake_auth, early_data: in dicttls, not implemented
+		func() string { return "cookie|" + hx(r.Bytes(8)) },                                         // not importable from raw
+		func() string { return fmt.Sprintf("generic|%d|%s", 60+r.Intn(200), hx(r.Bytes(3))) },       // unknown to ExtensionFromID
 	}
 	n := 3 + r.Intn(12)
 	perm := make([]int, len(kinds))
@@ -200,13 +202,25 @@ func genJSONHello(r *Rng, i int, tier string) string {
 		if len(exts) >= n {
 			break
 		}
-		if k >= len(kinds)-2 && r.Intn(6) != 0 {
+		if k >= len(kinds)-3 && r.Intn(6) != 0 {
 			continue // the unrepresentable kinds are rare
 		}
 		exts = append(exts, kinds[k]())
 	}
 	if r.Intn(3) == 0 {
 		exts = append(exts, fmt.Sprintf("padding|%d|%d", Pick(r, []int{0, 0, 17, 120}), 1))
+	}
+	opts := Pick(r, []string{"00", "00", "00", "10", "01", "11", "10"})
+	if opts[0] == '1' {
+		exts = append(exts, Pick(r, []string{"generic|15|01", "generic|49|-"}))
+	}
+	if opts != "00" || r.Intn(6) == 0 {
+		// pre_shared_key (must be last): a fake PSK with identities, so that it is on the wire
+		exts = append(exts, fmt.Sprintf("psk|1|0|0|%s:%d|%s", hx(r.Bytes(6)), r.Intn(100000), hx(r.Bytes(32))))
+	}
+	optTok := ""
+	if opts != "00" {
+		optTok = " opts=" + opts
 	}
 	if alias {
 		has := false
@@ -216,9 +230,9 @@ func genJSONHello(r *Rng, i int, tier string) string {
 		if !has {
 			exts = append([]string{"delegated|" + sigs()}, exts...)
 		}
-		return fmt.Sprintf("suites=%s comps=%s exts=%s rseed=%d alias=1", u64s(suites), comps, strings.Join(exts, ";"), r.U64()%1000000)
+		return fmt.Sprintf("suites=%s comps=%s exts=%s rseed=%d alias=1%s", u64s(suites), comps, strings.Join(exts, ";"), r.U64()%1000000, optTok)
 	}
-	return fmt.Sprintf("suites=%s comps=%s exts=%s rseed=%d", u64s(suites), comps, strings.Join(exts, ";"), r.U64()%1000000)
+	return fmt.Sprintf("suites=%s comps=%s exts=%s rseed=%d%s", u64s(suites), comps, strings.Join(exts, ";"), r.U64()%1000000, optTok)
 }
 
 // ---------------------------------------------------------------------------------------------
@@ -587,6 +601,23 @@ func renderJSON(s *tls.ClientHelloSpec, wire []byte) (doc []byte, skeleton strin
 		case *tls.FakePreSharedKeyExtension:
 			obj["identities"] = x.Identities
 			obj["binders"] = x.Binders
+		case *tls.UtlsPreSharedKeyExtension:
+			// a description of the hello carries what the hello carried: identities and binders of the
+			// wire extension (decoded with the fake extension's parser); the importer with UseRealPSK
+			// ignores them, an importer that falls back to the fake extension replays them
+			_, _, _, wexts, _ := parseWireHello(wire)
+			for _, we := range wexts {
+				if we.id == 41 {
+					f := &tls.FakePreSharedKeyExtension{}
+					if _, err := f.Write(we.body); err == nil {
+						obj["identities"] = f.Identities
+						obj["binders"] = f.Binders
+					}
+				}
+			}
+		case *tls.GenericExtension:
+			// only reachable under blunt mimicry: the format's generic form (name + payload)
+			obj["data"] = x.Data
 		case *tls.SNIExtension, *tls.StatusRequestExtension, *tls.StatusRequestV2Extension, *tls.SCTExtension,
 			*tls.ExtendedMasterSecretExtension, *tls.NPNExtension, *tls.RenegotiationInfoExtension,
 			*tls.FakeChannelIDExtension, *tls.SessionTicketExtension:
@@ -688,6 +719,11 @@ func unGs(xs []uint16) []uint16 {
 	return out
 }
 
+// canonPadPresenceOnly: with a real PSK extension (omitted without a session) the raw import's
+// AlwaysPadToLen compensates for the missing extension while a JSON "len" is fixed: the padding length then
+// depends on per-connection material and only the presence of the padding extension is compared.
+var canonPadPresenceOnly bool
+
 func canonWire(hs []byte) string {
 	vers, suites, comps, exts, ok := parseWireHello(hs)
 	if !ok {
@@ -716,6 +752,9 @@ func canonWire(hs []byte) string {
 			c = fmt.Sprintf("n%d", len(b))
 		case id == 21:
 			c = fmt.Sprintf("p%d", len(b))
+			if canonPadPresenceOnly {
+				c = "p"
+			}
 		default:
 			c = "x" + hx(b)
 		}
@@ -743,7 +782,38 @@ func execJSONHello(in KV) string {
 		return "out=nohello msg=" + sanitize(err.Error())
 	}
 	rec := asRecord(hello)
-	rspec, err := (&tls.Fingerprinter{}).RawClientHello(rec)
+	// option dimension: AllowUnknownExt / UseRealPSK of the JSON importer against the raw importer's
+	// AllowBluntMimicry / RealPSKResumption (opts=<a><p>, default 00)
+	opts := in["opts"]
+	if len(opts) != 2 {
+		opts = "00"
+	}
+	allow, realPSK := opts[0] == '1', opts[1] == '1'
+	canonPadPresenceOnly = realPSK
+	defer func() { canonPadPresenceOnly = false }()
+	fp := func() *tls.Fingerprinter {
+		return &tls.Fingerprinter{AllowBluntMimicry: allow, RealPSKResumption: realPSK}
+	}
+	jsonImport := func(doc []byte) (*tls.ClientHelloSpec, error) {
+		if !allow && !realPSK {
+			js := &tls.ClientHelloSpec{}
+			return js, js.UnmarshalJSON(doc)
+		}
+		// the documented way to pass the options: pre-populate the Extensions unmarshaler
+		// genericExtension() prints a warning to os.Stderr for every generic fallback: keep it off the line stream
+		if dn, err := os.OpenFile(os.DevNull, os.O_WRONLY, 0); err == nil {
+			saved := os.Stderr
+			os.Stderr = dn
+			defer func() { os.Stderr = saved; dn.Close() }()
+		}
+		u := tls.ClientHelloSpecJSONUnmarshaler{Extensions: &tls.TLSExtensionsJSONUnmarshaler{AllowUnknownExt: allow, UseRealPSK: realPSK}}
+		if err := json.Unmarshal(doc, &u); err != nil {
+			return nil, err
+		}
+		js := u.ClientHelloSpec()
+		return &js, nil
+	}
+	rspec, err := fp().RawClientHello(rec)
 	if err != nil {
 		return "out=rawerr msg=" + sanitize(err.Error())
 	}
@@ -754,15 +824,14 @@ func execJSONHello(in KV) string {
 	if why != "" {
 		return "out=unrep why=" + sanitize(why) + " " + rshape
 	}
-	jspec := &tls.ClientHelloSpec{}
-	if err := jspec.UnmarshalJSON(doc); err != nil {
+	jspec, err := jsonImport(doc)
+	if err != nil {
 		return fmt.Sprintf("out=jsonerr msg=%s %s %s", sanitize(err.Error()), skeleton, rshape)
 	}
 	jshape := specShape("s", jspec)
 	// fresh imports for the two wire hellos (ApplyPreset keeps and mutates the spec's extensions)
-	rspec2, _ := (&tls.Fingerprinter{}).RawClientHello(rec)
-	jspec2 := &tls.ClientHelloSpec{}
-	jspec2.UnmarshalJSON(doc)
+	rspec2, _ := fp().RawClientHello(rec)
+	jspec2, _ := jsonImport(doc)
 	seed := in.U64("rseed") + 1
 	rw, rerr := wireFromSpec(rspec2, seed)
 	jw, jerr := wireFromSpec(jspec2, seed)
